@@ -1,120 +1,173 @@
 ----------------------------- MODULE MockPatch -----------------------------
 (* C19 - asynq.mock.patch replaces every calling convention and always restores.
 
-   One attribute slot (module function / method / classmethod / staticmethod / plain attribute of a scratch
-   module, chosen in Init together with the way the target is named: patch("mod.attr") or patch.object(obj,
-   "attr")).  slot = 0 means the ORIGINAL object, slot = k the replacement installed by the k-th patch.
-   stack = the active patches, innermost last, each with the object it saved on entry.  One action per public
-   operation; the result the property PRESCRIBES is recorded in hist; TLC enumerates every history up to Depth
-   and harness/replay_c19.py performs each of them with the real asynq.mock.patch and compares.
+   Attribute slots of a scratch module: target 1 is a module function / method / classmethod / staticmethod /
+   plain attribute (chosen in Init together with the way it is named: patch("mod.attr") or patch.object(obj,
+   "attr")); with TWO=1 there is a second target, another @asynq() module function.  slots[t] = 0 means the
+   ORIGINAL object of the current holder, slots[t] = k that the k-th patcher is the innermost active one on t.
+   pat[k] = the k-th PATCHER OBJECT (style, replacement kind, target, the replacement object it was given, the
+   holder generation it last saw, what it saved at its last activation); act = the active patchers in
+   activation order.  One action per public operation; the result the property PRESCRIBES is recorded in hist;
+   TLC enumerates every history up to Depth and harness/replay_c19.py performs each of them with the real
+   asynq.mock.patch and compares.
 
-   Call(convention) is scheduled deterministically: after EVERY operation (and before the first) the target is
-   called once through every convention that exists for what the slot holds, so every history record carries
-   the prescribed outcome of those calls (res.convs / res.reach / res.bound; the call through convs[i] is made
-   with the positional argument i and the keyword argument y = step number).
+   Call(convention) is scheduled deterministically: after EVERY operation every target is called once through
+   every convention that exists for what its slot holds; res[t] carries the prescribed outcome (convs / reach =
+   the replacement OBJECT that must receive the call / bound).
 
-   Exits are LIFO (the property speaks of NESTED and SEQUENTIAL patches): Leave ends the innermost with-block /
-   decorated function / decorated test class method normally or by an exception, Stop stops the innermost
-   start()ed patch, StopAll is offered when the start()ed patches are exactly the top of the stack. *)
+   Dimensions: Enter creates a patcher (4 styles x 6 replacement kinds, or "the SAME replacement object as the
+   previous patcher": one caller-supplied object shared by two patches); Leave ends the innermost block
+   normally or by an exception; Stop / StopAll; with REUSE=1 a patcher that has ended is ACTIVATED AGAIN
+   (Reenter: the decorated function / test method is called again, the with statement entered again, start()
+   again) and the object holding the target may be re-created in between (Rehold: a dotted path names the
+   current holder at every activation).  Exits are LIFO per target (the property speaks of nested and
+   sequential patches); patches of different targets may be stopped in any order. *)
 EXTENDS Naturals, Sequences, FiniteSets, TLC, Json, IOUtils
 
+Flag(n)    == n \in DOMAIN IOEnv /\ IOEnv[n] = "1"
 Depth      == IF "DEPTH" \in DOMAIN IOEnv THEN atoi(IOEnv.DEPTH) ELSE 4
 MaxPatches == IF "PATCHES" \in DOMAIN IOEnv THEN atoi(IOEnv.PATCHES) ELSE 2
 MaxNest    == IF "NEST" \in DOMAIN IOEnv THEN atoi(IOEnv.NEST) ELSE 2
+Two        == Flag("TWO")                            \* a second target
+Reuse      == Flag("REUSE")                          \* Reenter / Rehold
+NT         == IF Two THEN 2 ELSE 1
 
 Targets   == {"modfn", "meth", "cmeth", "smeth", "attr"}
 Apis      == IF "API" \in DOMAIN IOEnv THEN {IOEnv.API} ELSE {"str", "obj"}
 Block     == {"with", "deco", "classdeco"}          \* styles that end by leaving a block
 AllStyles == Block \cup {"start"}
 AllRepls  == {"default", "function", "boundmeth", "callobj", "newcallable", "value"}
-(* the thorough tier's deeper run (3 patches, nesting 3) uses a smaller alphabet: PRESET=small *)
-Small     == "PRESET" \in DOMAIN IOEnv /\ IOEnv.PRESET = "small"
-Styles    == IF Small THEN {"with", "deco", "start"} ELSE AllStyles
-Repls     == IF Small THEN {"default", "function", "value"} ELSE AllRepls
+Shareable == {"function", "boundmeth", "callobj", "value"}     \* objects the caller supplies
+(* smaller alphabets for the deeper / wider runs *)
+Preset    == IF "PRESET" \in DOMAIN IOEnv THEN IOEnv.PRESET ELSE "full"
+Styles    == IF Preset = "full" THEN AllStyles ELSE {"with", "deco", "start"}
+Repls     == CASE Preset = "full" -> AllRepls
+               [] Preset = "small" -> {"default", "function", "value"}
+               [] OTHER -> {"default", "function", "callobj", "value"}          \* "mid"
 Convs     == <<"sync", "asynq", "yield", "asyncio">>
 
-VARIABLES target, api, slot, stack, kinds, hist
-vars == <<target, api, slot, stack, kinds, hist>>
-(* kinds[k] = replacement kind of the k-th patch (Len(kinds) = number of patches entered so far) *)
+VARIABLES target, api, slots, act, pat, gen, hist
+vars == <<target, api, slots, act, pat, gen, hist>>
 
 Init == /\ target \in Targets /\ api \in Apis
-        /\ slot = 0 /\ stack = <<>> /\ kinds = <<>> /\ hist = <<>>
+        /\ slots = [t \in 1..NT |-> 0] /\ act = <<>> /\ pat = <<>> /\ gen = 0 /\ hist = <<>>
 
-Top == stack[Len(stack)]
+KindOf(t) == IF t = 1 THEN target ELSE "modfn"
+ActiveOn(a, p, t) == {i \in 1..Len(a) : p[a[i]].tgt = t}              \* positions in act
+TopOf(a, p, t) == a[CHOOSE i \in ActiveOn(a, p, t) : \A j \in ActiveOn(a, p, t) : j <= i]
+Remove(a, k) == SelectSeq(a, LAMBDA x : x # k)
+LastOp == IF hist = <<>> THEN "none" ELSE hist[Len(hist)].op
 
-(* what an observer sees in the slot: the original, the non-callable value of patch k installed AS IS, or
-   "something else" (a mock / a wrapper around the replacement - its identity is not prescribed) *)
-SlotTok(ks, s) == IF s = 0 THEN "orig" ELSE IF ks[s] = "value" THEN "val" \o ToString(s) ELSE "other"
+(* what an observer sees in the slot: the original (of the current holder), the non-callable value object
+   installed AS IS, or "something else" (a mock / a wrapper around the replacement - identity not prescribed) *)
+SlotTok(p, s) == IF s = 0 THEN "orig" ELSE IF p[s].repl = "value" THEN "val" \o ToString(p[s].obj) ELSE "other"
 
 (* the calling conventions that exist for what is in the slot: a non-callable value can only be read; the
    plain attribute is not an async function, only the synchronous call of a callable replacement is stated *)
-ConvsOf(ks, s) ==
-  IF s # 0 /\ ks[s] = "value" THEN <<"read">>
-  ELSE IF target = "attr" THEN (IF s = 0 THEN <<"read">> ELSE <<"sync">>)
+ConvsOf(p, t, s) ==
+  IF s # 0 /\ p[s].repl = "value" THEN <<"read">>
+  ELSE IF KindOf(t) = "attr" THEN (IF s = 0 THEN <<"read">> ELSE <<"sync">>)
   ELSE Convs
 
-(* what one call through convention c reaches: whatever is in the slot (= the innermost replacement while a
-   patch is active, the original otherwise) - the same for every convention.  Python binds a plain function
-   stored in a class to the instance it is reached through (so does the original method); nothing else binds. *)
-Reach(ks, s, c) ==
-  [reach |-> s, bound |-> IF target = "meth" /\ (s = 0 \/ ks[s] = "function") THEN "inst" ELSE "none"]
+(* what one call through convention c reaches: the replacement OBJECT of the innermost active patch (the
+   original otherwise) - the same for every convention.  Python binds a plain function stored in a class to the
+   instance it is reached through (so does the original method); nothing else binds. *)
+Reach(p, t, s, c) ==
+  [reach |-> IF s = 0 THEN 0 ELSE p[s].obj,
+   bound |-> IF KindOf(t) = "meth" /\ (s = 0 \/ p[s].repl = "function") THEN "inst" ELSE "none"]
 
-Rec(op, style, repl, k, ks, s) ==
-  [op |-> op, style |-> style, repl |-> repl, k |-> k,
-   res |-> [slot |-> SlotTok(ks, s), convs |-> ConvsOf(ks, s),
-            reach |-> Reach(ks, s, ConvsOf(ks, s)[1]).reach, bound |-> Reach(ks, s, ConvsOf(ks, s)[1]).bound]]
+Obs(p, sl) == [t \in 1..NT |->
+  LET cs == ConvsOf(p, t, sl[t]) IN
+  [slot |-> SlotTok(p, sl[t]), convs |-> cs,
+   reach |-> Reach(p, t, sl[t], cs[1]).reach, bound |-> Reach(p, t, sl[t], cs[1]).bound]]
 
-Enter(style, repl) ==
-  /\ Len(hist) < Depth /\ Len(stack) < MaxNest /\ Len(kinds) < MaxPatches
-  /\ LET k == Len(kinds) + 1 IN
-       /\ kinds' = Append(kinds, repl)
-       /\ stack' = Append(stack, [k |-> k, style |-> style, saved |-> slot])
-       /\ slot' = k
-       /\ hist' = Append(hist, Rec("enter", style, repl, k, kinds', k))
-  /\ UNCHANGED <<target, api>>
+Rec(op, style, repl, k, share, t, p, sl) ==
+  [op |-> op, style |-> style, repl |-> repl, k |-> k, share |-> share, tgt |-> t, res |-> Obs(p, sl)]
 
-Leave(op) ==      \* leaving the innermost block normally or by an exception restores what that patch saved
-  /\ Len(hist) < Depth /\ stack # <<>> /\ Top.style \in Block
-  /\ slot' = Top.saved
-  /\ stack' = SubSeq(stack, 1, Len(stack) - 1)
-  /\ hist' = Append(hist, Rec(op, Top.style, "none", Top.k, kinds, slot'))
-  /\ UNCHANGED <<target, api, kinds>>
+Activate(k, p) ==       \* patcher k (described by p) saves what its target holds and installs its replacement
+  /\ slots' = [slots EXCEPT ![p[k].tgt] = k]
+  /\ pat' = [p EXCEPT ![k].saved = slots[p[k].tgt], ![k].gen = gen]
+  /\ act' = Append(act, k)
 
-Stop ==
-  /\ Len(hist) < Depth /\ stack # <<>> /\ Top.style = "start"
-  /\ slot' = Top.saved
-  /\ stack' = SubSeq(stack, 1, Len(stack) - 1)
-  /\ hist' = Append(hist, Rec("stop", "start", "none", Top.k, kinds, slot'))
-  /\ UNCHANGED <<target, api, kinds>>
+Enter(style, repl, same, t) ==
+  /\ Len(hist) < Depth /\ Len(act) < MaxNest /\ Len(pat) < MaxPatches
+  /\ same => (pat # <<>> /\ pat[Len(pat)].repl = repl /\ repl \in Shareable)
+  /\ LET k == Len(pat) + 1
+         p == Append(pat, [style |-> style, repl |-> repl, tgt |-> t, gen |-> gen, saved |-> 0,
+                           obj |-> IF same THEN pat[Len(pat)].obj ELSE k]) IN
+       /\ Activate(k, p)
+       /\ hist' = Append(hist, Rec("enter", style, repl, k, IF same THEN p[k].obj ELSE 0, t, pat', slots'))
+  /\ UNCHANGED <<target, api, gen>>
 
-Started == {i \in 1..Len(stack) : stack[i].style = "start"}
-StopAll ==        \* stops every start()ed patch, innermost first
-  /\ Len(hist) < Depth /\ stack # <<>> /\ Top.style = "start"
-  /\ \A i \in Started : \A j \in i..Len(stack) : j \in Started
-  /\ LET low == CHOOSE i \in Started : \A j \in Started : i <= j IN
-       /\ slot' = stack[low].saved
-       /\ stack' = SubSeq(stack, 1, low - 1)
-       /\ hist' = Append(hist, Rec("stopall", "start", "none", stack[low].k, kinds, slot'))
-  /\ UNCHANGED <<target, api, kinds>>
+Reenter(k) ==           \* the same patcher object is activated again
+  /\ Reuse /\ Len(hist) < Depth /\ Len(act) < MaxNest
+  /\ k \in 1..Len(pat) /\ \A i \in 1..Len(act) : act[i] # k
+  /\ api = "str" \/ pat[k].gen = gen        \* patch.object keeps the holder it was given: nothing stated after Rehold
+  /\ Activate(k, pat)
+  /\ hist' = Append(hist, Rec("reenter", pat[k].style, pat[k].repl, k, 0, pat[k].tgt, pat', slots'))
+  /\ UNCHANGED <<target, api, gen>>
 
-Next == \/ \E st \in Styles, r \in Repls : Enter(st, r)
-        \/ Leave("exit_normal") \/ Leave("exit_exception") \/ Stop \/ StopAll
+Rehold ==               \* the object that holds the targets is re-created (a new module / class, new originals)
+  /\ Reuse /\ Len(hist) < Depth /\ act = <<>> /\ LastOp # "rehold" /\ pat # <<>>
+  /\ gen' = gen + 1
+  /\ hist' = Append(hist, Rec("rehold", "none", "none", 0, 0, 1, pat, slots))
+  /\ UNCHANGED <<target, api, slots, act, pat>>
+
+Deactivate(op, k) ==    \* ending patcher k restores what it saved
+  /\ slots' = [slots EXCEPT ![pat[k].tgt] = pat[k].saved]
+  /\ act' = Remove(act, k)
+  /\ hist' = Append(hist, Rec(op, pat[k].style, "none", k, 0, pat[k].tgt, pat, slots'))
+  /\ UNCHANGED <<target, api, pat, gen>>
+
+Blocks == {i \in 1..Len(act) : pat[act[i]].style \in Block}
+Leave(op) ==            \* the innermost open block is left normally or by an exception
+  /\ Len(hist) < Depth /\ Blocks # {}
+  /\ LET k == act[CHOOSE i \in Blocks : \A j \in Blocks : j <= i] IN
+       /\ k = TopOf(act, pat, pat[k].tgt)
+       /\ Deactivate(op, k)
+
+Stop(k) ==
+  /\ Len(hist) < Depth /\ \E i \in 1..Len(act) : act[i] = k
+  /\ pat[k].style = "start" /\ k = TopOf(act, pat, pat[k].tgt)
+  /\ Deactivate("stop", k)
+
+Started == {i \in 1..Len(act) : pat[act[i]].style = "start"}
+StopAll ==              \* stops every start()ed patch, latest first
+  /\ Len(hist) < Depth /\ Started # {}
+  /\ \A i \in Started : \A j \in i..Len(act) : pat[act[j]].tgt = pat[act[i]].tgt => j \in Started
+  /\ slots' = [t \in 1..NT |->
+        LET st == {i \in Started : pat[act[i]].tgt = t} IN
+        IF st = {} THEN slots[t] ELSE pat[act[CHOOSE i \in st : \A j \in st : i <= j]].saved]
+  /\ act' = SelectSeq(act, LAMBDA x : pat[x].style # "start")
+  /\ hist' = Append(hist, Rec("stopall", "start", "none", 0, 0, 1, pat, slots'))
+  /\ UNCHANGED <<target, api, pat, gen>>
+
+Next == \/ \E st \in Styles, r \in Repls, same \in BOOLEAN, t \in 1..NT : Enter(st, r, same, t)
+        \/ \E k \in 1..MaxPatches : Reenter(k) \/ Stop(k)
+        \/ Rehold \/ Leave("exit_normal") \/ Leave("exit_exception") \/ StopAll
 Spec == Init /\ [][Next]_vars
 
 (* ---- the property, on the model ---- *)
-Restored  == stack = <<>> => slot = 0                      \* after the last exit, by any path: the original
-Innermost == stack # <<>> => slot = Top.k                  \* while active: the innermost replacement
-SavedChain == \A i \in 1..Len(stack) : stack[i].saved = IF i = 1 THEN 0 ELSE stack[i - 1].k
-RestoreStep ==                                             \* every exit restores exactly what was replaced
-  [][Len(stack') < Len(stack) => slot' = stack[Len(stack') + 1].saved]_vars
-ConventionsAgree ==                                        \* all conventions reach the same object, bound alike
-  LET cs == ConvsOf(kinds, slot) IN
-  \A a, b \in 1..Len(cs) : Reach(kinds, slot, cs[a]) = Reach(kinds, slot, cs[b])
-OriginalIffRestored == \A i \in 1..Len(hist) : (hist[i].res.slot = "orig") <=> (hist[i].res.reach = 0)
+Restored  == \A t \in 1..NT : ActiveOn(act, pat, t) = {} => slots[t] = 0      \* after the last exit: the original
+Innermost == \A t \in 1..NT : ActiveOn(act, pat, t) # {} => slots[t] = TopOf(act, pat, t)
+SavedChain ==                                             \* each active patch saved what was there before it
+  \A i \in 1..Len(act) :
+    LET t == pat[act[i]].tgt
+        below == {j \in ActiveOn(act, pat, t) : j < i} IN
+    pat[act[i]].saved = IF below = {} THEN 0 ELSE act[CHOOSE j \in below : \A l \in below : l <= j]
+ConventionsAgree ==                                       \* all conventions reach the same object, bound alike
+  \A t \in 1..NT :
+    LET cs == ConvsOf(pat, t, slots[t]) IN
+    \A a, b \in 1..Len(cs) : Reach(pat, t, slots[t], cs[a]) = Reach(pat, t, slots[t], cs[b])
+OriginalIffRestored ==
+  \A i \in 1..Len(hist) : \A t \in 1..NT : (hist[i].res[t].slot = "orig") <=> (hist[i].res[t].reach = 0)
 NonCallableAsIs ==
-  \A i \in 1..Len(hist) : hist[i].op = "enter" /\ hist[i].repl = "value" =>
-    hist[i].res.slot = "val" \o ToString(hist[i].k) /\ hist[i].res.convs = <<"read">>
+  \A i \in 1..Len(hist) : hist[i].op \in {"enter", "reenter"} /\ hist[i].repl = "value" =>
+    LET r == hist[i].res[hist[i].tgt] IN
+    r.convs = <<"read">> /\ \E j \in 1..Len(pat) : r.slot = "val" \o ToString(j)
+ReactivationReplaces ==                                   \* every activation of a patcher installs its replacement
+  [][(Len(act') > Len(act)) => LET k == act'[Len(act')] IN slots'[pat'[k].tgt] = k]_vars
 
-Terminal == Len(hist) = Depth \/ (hist # <<>> /\ stack = <<>> /\ Len(kinds) = MaxPatches)
-Export == Terminal => PrintT(ToJson([h |-> hist, target |-> target, api |-> api]))
+Terminal == Len(hist) = Depth \/ (~Reuse /\ hist # <<>> /\ act = <<>> /\ Len(pat) = MaxPatches)
+Export == Terminal => PrintT(ToJson([h |-> hist, target |-> target, api |-> api, two |-> IF Two THEN 1 ELSE 0]))
 =============================================================================
